@@ -22,13 +22,16 @@
    Commit slot is filled broadcasts a recovery message of the node's height and view carrying that Commit whole; and in every
    history of an epoch, once the node has signed, every RecoveryRequest is answered with a recovery message of the signed
    commit's view that carries the signed commit (what the reference application's reconstruction needs to rebuild it
-   identically: Properties/C19.v commit_rebuilt_under_its_own_height_and_view_is_the_original).
+   identically: Properties/C19.v commit_rebuilt_under_its_own_height_and_view_is_the_original); and, on sendRecoveryMessage
+   itself - the one place where a recovery message is built - from the state reached by any history of an epoch: after the
+   signature (after the pre-commit was built) the message carries the signed commit (the built pre-commit) in its view
+   (SignPRM.v).
    The history-level clauses about proposals, responses and pre-commits (no two per view / at all), the commits carried inside
    the recovery messages sent on other occasions (timeouts, ChangeViews of peers), view monotonicity of the outgoing messages
    and the other recovery contents are NOT proved; they
    are decided by the monitors on the real library over the generated histories (DESIGN.md section 0.1). *)
 From Coq Require Import ZArith List.
-From DbftV Require Import P03 P02 SignLApi SignLCV Typed SignLNoCV SignLCM SignPApi SignPNoCV SignPPM P09b SignLRM.
+From DbftV Require Import P03 P02 SignLApi SignLCV Typed SignLNoCV SignLCM SignPApi SignPNoCV SignPPM P09b SignLRM SignPRM.
 Open Scope Z_scope.
 
 Definition own_commit_or_precommit_sent (s : nstate) : Prop :=
@@ -232,3 +235,28 @@ Theorem every_recovery_request_after_the_signature_is_answered_with_the_signed_c
         (forall q, In q (to_p0 c) -> carries p q)).
 Proof. exact (recovery_answer_after_the_signature_carries_the_signed_commit cfg st g mi msg). Qed.
 Print Assumptions every_recovery_request_after_the_signature_is_answered_with_the_signed_commit.
+
+(* the same on sendRecoveryMessage itself - the one place where the library builds a recovery message, whatever the occasion
+   (RecoveryRequest, timeout after the commit, a peer's ChangeView) - from the state reached by ANY history of an epoch *)
+Theorem recovery_message_built_after_the_signature_carries_the_signed_commit cfg st g mi :
+  Epoch cfg st g -> KS mi g -> zlen (Validators st) <= 65536 -> nsign g <> 0%nat -> 0 <= mi ->
+  exists c, signed_commit g = Some c /\
+    hx st sendRecoveryMessage (fun _ s tr =>
+      Val tr -> s = st /\
+      exists sb p, In (sb, CBroadcast p) tr /\ p_type p = RecoveryMessageT /\
+        p_height p = BlockIndex st /\ p_view p = p_view c /\ p_idx p = u16 mi /\
+        (forall q, In q (to_p0 c) -> carries p q)).
+Proof. exact (recovery_message_after_the_signature_carries_the_signed_commit cfg st g mi). Qed.
+Print Assumptions recovery_message_built_after_the_signature_carries_the_signed_commit.
+
+(* anti-MEV: after the pre-commit was built the recovery message carries it, in its view *)
+Theorem recovery_message_built_after_the_precommit_carries_it cfg st g mi :
+  Epoch cfg st g -> KS mi g -> zlen (Validators st) <= 65536 -> nset g <> 0%nat -> 0 <= mi ->
+  exists c, set_precommit g = Some c /\
+    hx st sendRecoveryMessage (fun _ s tr =>
+      Val tr -> s = st /\
+      exists sb p, In (sb, CBroadcast p) tr /\ p_type p = RecoveryMessageT /\
+        p_height p = BlockIndex st /\ p_view p = p_view c /\ p_idx p = u16 mi /\
+        (forall q, In q (to_p0 c) -> carries p q)).
+Proof. exact (recovery_message_after_the_precommit_carries_it cfg st g mi). Qed.
+Print Assumptions recovery_message_built_after_the_precommit_carries_it.
